@@ -387,7 +387,8 @@ impl Run {
 							failure_persistence: None,
 							rng_algorithm: RngAlgorithm::ChaCha,
 							rng_seed: RngSeed::Fixed(u64::from_le_bytes(seed[..8].try_into().unwrap())),
-							max_shrink_iters: self.tier.pick(4000, 20000),
+							// shrinking re-runs the whole (possibly expensive) case: bounded, the unshrunk tape is a valid replay too
+							max_shrink_iters: self.tier.pick(500, 5000),
 							max_global_rejects: 1 << 30,
 							max_local_rejects: 1 << 30,
 							..Config::default()
